@@ -225,15 +225,86 @@ Fixpoint netq_step (fuel : nat) (q : nco) (s : traph) : nco :=
       end
   end.
 
+(* ---- get_webentity_pagelinks_iter (page-link query) --------------------------------- *)
+Record lco := mkL {
+  l_we : N; l_inb : bool; l_int : bool; l_outb : bool;
+  l_prefixes : list bytes;                    (* prefixes not started yet *)
+  l_start : N;
+  l_stack : list (N * bytes * N);             (* (block, lru above, level) *)
+  l_items : list (bool * bytes * N * N);      (* (is an outlink, lru of the page, other end's block, weight) still to process *)
+  l_inpend : option (bytes * N);              (* (lru of the page, head of its inlinks): expanded after its outlinks *)
+  l_acc : list (bytes * bytes * N);
+  l_done : bool;
+  l_refused : bool
+}.
+Definition plinksq_start (w : N) (ps : list bytes) (inb int outb : bool) : lco :=
+  mkL w inb int outb ps 0 [] [] None [] false false.
+
+(* runs until one link item has been processed (yield) or the end *)
+Fixpoint plinksq_step (fuel : nat) (q : lco) (s : traph) : lco :=
+  match fuel with
+  | O => q
+  | S f =>
+    let mk ps st stk its ip acc dn rf := mkL (l_we q) (l_inb q) (l_int q) (l_outb q) ps st stk its ip acc dn rf in
+    if negb (l_int q) && negb (l_outb q) && negb (l_inb q) then mk [] 0 [] [] None [] true true
+    else
+    match l_items q with
+    | (isout, lru, other, wt) :: rest =>
+        let ow := we_at other (tr s) in
+        let ol := lru_at other s in
+        let add :=
+            if isout then
+              if (l_outb q && negb (ow =? l_we q)) || (l_int q && (ow =? l_we q)) then [(lru, ol, wt)] else []
+            else if negb (ow =? l_we q) then [(ol, lru, wt)] else [] in
+        mk (l_prefixes q) (l_start q) (l_stack q) rest (l_inpend q) (l_acc q ++ add) false false     (* yield *)
+    | [] =>
+        match l_inpend q with
+        | Some (lru, h) =>
+            plinksq_step f (mk (l_prefixes q) (l_start q) (l_stack q)
+                               (map (fun x => (false, lru, fst x, snd x)) (weighted (targets_of (stubs s) h)))
+                               None (l_acc q) false false) s
+        | None =>
+            match l_stack q with
+            | [] =>
+                match l_prefixes q with
+                | [] => mk [] 0 [] [] None (l_acc q) true false
+                | p :: ps =>
+                    match find (lru_iter p) (tr s) with
+                    | None => mk [] 0 [] [] None (l_acc q) true true                   (* TraphException *)
+                    | Some d => plinksq_step f (mk ps (addr d) [(addr d, lru_dirname p, 0)] [] None (l_acc q) false false) s
+                    end
+                end
+            | (a, pre, lv) :: rest =>
+                match read_at a (tr s) with
+                | None => plinksq_step f (mk (l_prefixes q) (l_start q) rest [] None (l_acc q) false false) s
+                | Some x =>
+                    let d := rn_d x in
+                    let cur := pre ++ stem d in
+                    let rel := (a =? l_start q) || (we d =? 0) in
+                    let pushes :=
+                        (if rel then nz3 (rn_child x) cur (lv + 1) else [])
+                          ++ (if a =? l_start q then [] else nz3 (rn_left x) pre lv ++ nz3 (rn_right x) pre lv) in
+                    let outs := if rel && page d && negb (outh d =? 0) && (l_outb q || l_int q)
+                                then map (fun y => (true, cur, fst y, snd y)) (weighted (targets_of (stubs s) (outh d)))
+                                else [] in
+                    let ins := if rel && page d && negb (inh d =? 0) && l_inb q then Some (cur, inh d) else None in
+                    plinksq_step f (mk (l_prefixes q) (l_start q) (pushes ++ rest) outs ins (l_acc q) false false) s
+                end
+            end
+        end
+    end
+  end.
+
 (* ---- scheduler --------------------------------------------------------------------- *)
 Inductive coro :=
 | CBatch (b : bco)
 | CRule (r : rco)
 | CPages (q : qco)
-| CNet (q : nco).
+| CNet (q : nco)
+| CLinks (q : lco).
 
 Definition co_done (c : coro) : bool :=
-  match c with CBatch b => b_done b | CRule r => r_done r | CPages q => q_done q | CNet q => n_done q end.
+  match c with CBatch b => b_done b | CRule r => r_done r | CPages q => q_done q | CNet q => n_done q | CLinks q => l_done q end.
 
 Definition tree_size (t : tst) : nat := length (all_nodes t).
 
@@ -246,6 +317,8 @@ Definition co_step (c : coro) (s : traph) : coro * traph :=
                                                  + tree_size (tr s) + length (q_stack q) + length (q_pend q)))) q s), s)
        | CNet q => (CNet (netq_step (S (S (S (tree_size (tr s) + length (stubs s) + length (n_items q) + length (n_ptrs q)
                                                + length (n_stack q) + length (n_pend q))))) q s), s)
+       | CLinks q => (CLinks (plinksq_step (4 + length (l_prefixes q) + length (l_stack q)
+                                             + 2 * (S (length (l_prefixes q))) * S (tree_size (tr s))) q s), s)
        end.
 
 Fixpoint set_nth_co (n : nat) (c : coro) (l : list coro) : list coro :=
